@@ -32,9 +32,9 @@ TmplVocab ==
    "{% case a %}", "{% when 3 %}", "{% when 1, 2 %}", "{% endcase %}", "{% capture c %}", "{% endcapture %}",
    "{% assign a = 7 %}", "{% increment c %}", "{% cycle 'u', 'v' %}", "{% ifchanged %}", "{% endifchanged %}",
    "{% tablerow i in (1..2) cols:1 %}", "{% endtablerow %}", "{% include 'p' %}",
-   "{% endif x %}", "{% else x %}", "{% bogus %}", "{%", "{{", "{% comment %}", "{% endcomment %}"}
+   "{% endif x %}", "{% else x %}", "{% bogus %}", "{%", "{{", "{% comment %}", "{% endcomment %}", "{% raw %}", "{% endraw %}"}
 HostTable ==
-  { Host("out", "{{", "}}", 1, {"a", "b.k", "arr", "[0]", "[-1]", "[i]", "[", "]", "1", "-1", ".", "first", "size", " ", "|", "upcase", "append", ":", "'s'", ",", "nil", "i", "b['k']", "[ 'k' ]", "x", Big20, "1|plus:", "arr[0][", "a|slice:0,"}),
+  { Host("out", "{{", "}}", 1, {"a", "b.k", "arr", "[0]", "[-1]", "[i]", "[", "]", "1", "-1", ".", "first", "size", " ", "|", "upcase", "append", ":", "'s'", ",", "nil", "i", "b['k']", "[ 'k' ]", "x", Big20, "1|plus:", "arr[0][", "a|slice:0,", "\"'q'\"", "'\"'", "\"a'\"", "b[\"'k'\"]"}),
     Host("assign", "{% assign ", "%}{{v}}", 1, {"v", " ", "=", "a", "b.k", "1", "'s'", "|", "size", "append", ":", ",", "true", "v=a", "v = ", "nil", "arr[1]", "x", Big20, "v=1|plus:", "v=arr[0]["}),
     Host("if", "{% if ", "%}T{% else %}F{% endif %}", 1,
          {"a", "b.k", "x", "1", "3", "'s'", "nil", "true", " ", "==", "<", ">=", "<>", " contains ", " and ", " or ", "=", "empty", "|",
@@ -63,8 +63,10 @@ HostTable ==
                                  "{{- forloop.index -}}", " ", "x", "{% if i == 1 %}", "{% endif %}"}),
     Host("tmpl_case", "", "", 1, {"{% case a %}", "{% when 3 %}", "{% when 1, 2 %}", "{% else %}", "{% endcase %}", "x", "y", " ", "{% else x %}"}),
     Host("tmpl_cap", "", "", 1, {"{% capture c %}", "{% endcapture %}", "{{c}}", "{% assign c = 1 %}", "x", "{% ifchanged %}", "{% endifchanged %}", "{% increment c %}",
-                                 "{% cycle 'u', 'v' %}", "{% tablerow i in (1..2) cols:1 %}", "{% endtablerow %}", "{{i}}"}) }
-IsTmpl(n) == n \in {"tmpl", "tmpl_if", "tmpl_for", "tmpl_case", "tmpl_cap"}
+                                 "{% cycle 'u', 'v' %}", "{% tablerow i in (1..2) cols:1 %}", "{% endtablerow %}", "{{i}}"}),
+    Host("tmpl_raw", "", "", 1, {"{% raw %}", "{% raw -%}", "{% endraw %}", "{%- endraw %}", "{% endraw x %}", " ", "a", "{{a}}", "{{", "{% if a %}", "-%} ",
+                                 "{% comment %}", "{% endcomment %}", "{% endcomment x %}", "{% bogus %}", "{% if %}"}) }
+IsTmpl(n) == n \in {"tmpl", "tmpl_if", "tmpl_for", "tmpl_case", "tmpl_cap", "tmpl_raw"}
 HostOf(n) == CHOOSE h \in HostTable : h.n = n
 
 TheData == [n \in {"a", "b", "i", "arr", "s"} |->
@@ -117,7 +119,7 @@ lexvars == <<phase, host, inner, n, mode>>
 allv == <<vars, lexvars>>
 
 Alphabet(h, m) == IF m = "generic" THEN Generic ELSE h.vocab
-Bound(h, m) == IF m = "generic" THEN MaxPieces ELSE IF h \in {"tmpl_if", "tmpl_for", "tmpl_case", "tmpl_cap"} THEN MaxTmpl ELSE MaxPhrase
+Bound(h, m) == IF m = "generic" THEN MaxPieces ELSE IF h \in {"tmpl_if", "tmpl_for", "tmpl_case", "tmpl_cap", "tmpl_raw"} THEN MaxTmpl ELSE MaxPhrase
 
 LInit == /\ phase = "seed" /\ host \in Hosts /\ mode \in {"generic", "phrase"}
          /\ inner \in {""} \cup Alphabet(HostOf(host), mode) /\ n = (IF inner = "" THEN 0 ELSE 1)
